@@ -417,6 +417,58 @@ pub fn spaces(tier: Tier) -> Vec<Space> {
             }
         }));
     }
+    // 5b. verifier call histories: every sequence of three verifications of ONE signature against keys drawn from
+    //     {signer compressed, signer uncompressed, the mirror key -P (private key n - d, same x), an unrelated key},
+    //     through verify_digest and verify_hashbuf, all on one thread without anything in between. Each answer must be
+    //     the stateless reference answer: a verifier that remembers anything from the previous call (a decoded point
+    //     keyed too coarsely, a cached digest) shows up as an answer that depends on the history.
+    {
+        let kt = kt.clone();
+        v.push(Space::new("verifier-call-histories", 2 * 2 * 64, move |case, acc| {
+            let c = coords(case.idx, &[2, 2, 64]);
+            let n = secp::n();
+            let si = [0usize, 9 % kt.d.len()][c[0] as usize];
+            let d = kt.d[si].clone();
+            let mirror = &n - &d;
+            let other = kt.d[(si + 3) % kt.d.len()].clone();
+            let msg = b"history".to_vec();
+            let digest = digest_of(0, &msg);
+            let Ok(Ok(sig)) = guard(|| ECDSA::sign_with_deterministic_k(&lib_key(&d, true), &msg, signing_hash(0), false)) else { return };
+            let (r, s) = rs_of(&sig);
+            // (private scalar, compressed form)
+            let alphabet: [(&BigUint, bool); 4] = [(&d, true), (&d, false), (&mirror, true), (&other, true)];
+            let names = ["signer (compressed)", "signer (uncompressed)", "mirror key n-d", "unrelated key"];
+            let seq: Vec<usize> = (0..3).map(|k| ((c[2] >> (2 * k)) & 3) as usize).collect();
+            acc.evaluations += 1;
+            acc.transitions += 3;
+            acc.traces += 1;
+            acc.nontrivial_structural += 1;
+            let via_hashbuf = c[1] == 1;
+            let got = guard(|| {
+                let mut out = vec![];
+                for a in &seq {
+                    let (sk, comp) = alphabet[*a];
+                    let pk = lib_key(sk, comp).to_public_key()?;
+                    out.push(if via_hashbuf { ECDSA::verify_hashbuf(&digest, &pk, &sig).unwrap_or(false) } else { ECDSA::verify_digest(&msg, &pk, &sig, signing_hash(0)).unwrap_or(false) });
+                }
+                Ok::<_, bsv::BSVErrors>(out)
+            });
+            let want: Vec<bool> = seq.iter().map(|a| secp::verify(&secp::mul_g(alphabet[*a].0), &z_of(&digest), &r, &s)).collect();
+            let input = json!({"signer": hx(&secp::be32(&d)), "verifier": if via_hashbuf { "ECDSA::verify_hashbuf" } else { "ECDSA::verify_digest" }, "keys_presented_in_order": seq.iter().map(|a| names[*a]).collect::<Vec<_>>(), "reference_answers": want});
+            match got {
+                Ok(Ok(g)) => {
+                    acc.outcome(&[0x48, g[0] as u8, g[1] as u8, g[2] as u8]);
+                    if g != want {
+                        let i = g.iter().zip(want.iter()).position(|(a, b)| a != b).unwrap_or(0);
+                        let kind = if g[i] { "accepts-invalid-signature" } else { "rejects-valid-signature" };
+                        acc.violate(format!("C05/{}/kind={}/after-call-history", if via_hashbuf { "verify_hashbuf" } else { "verify_digest" }, kind), case.idx, case.json(input), format!("answers {:?}, stateless reference {:?} (first difference at call {})", g, want, i));
+                    }
+                }
+                Ok(Err(e)) => acc.violate("C05/verifier-call-histories/kind=spurious-error", case.idx, case.json(input), e.to_string()),
+                Err(p) => acc.violate(format!("C05/verifier-call-histories/kind=panic@{}", panic_site(&p)), case.idx, case.json(input), p),
+            }
+        }));
+    }
     // 6. ECDH: every ordered pair, both compression forms of the public key
     {
         let kt = kt.clone();
